@@ -236,16 +236,16 @@ pub fn assemble<S>(
             assembly.decls.as_ref().unwrap(),
             assembly.defs.as_mut().unwrap())?;
 
+        check_unused_defines(
+            report,
+            opts,
+            assembly.decls.as_ref().unwrap())?;
+
         assembly.output = Some(output::build_output(
             report,
             assembly.ast.as_ref().unwrap(),
             assembly.decls.as_ref().unwrap(),
             assembly.defs.as_ref().unwrap())?);
-
-        check_unused_defines(
-            report,
-            opts,
-            assembly.decls.as_ref().unwrap())?;
 
         Ok(())
     };
